@@ -278,6 +278,38 @@ def main() -> int:
     w.fp["vhdx.METADATA_MAP_KEYS"] = [k.bytes_le.hex() for k in m_vhdxpy.MetadataTable.METADATA_MAP]
     w.end("vhdx")
 
+    # ---------------- VMDK
+    from dissect.hypervisor.disk import c_vmdk as m_vmdk
+    from dissect.hypervisor.disk import vmdk as m_vmdkpy
+    cv = m_vmdk.c_vmdk
+    w.ns("vmdk")
+    w.struct("VMDKSparseExtentHeader", cv.VMDKSparseExtentHeader,
+             ["magic", "version", "flags", "capacity", "grain_size", "descriptor_offset", "descriptor_size",
+              "num_grain_table_entries", "primary_grain_directory_offset"])
+    w.struct("COWDSparseExtentHeader", cv.COWDSparseExtentHeader,
+             ["magic", "flags", "capacity", "grain_size", "primary_grain_directory_offset", "num_grain_directory_entries"])
+    w.struct("VMDKSESparseConstHeader", cv.VMDKSESparseConstHeader,
+             ["magic", "version", "capacity", "grain_size", "grain_table_size", "flags", "grain_directory_offset",
+              "grain_directory_size", "grain_tables_offset", "grain_tables_size", "grains_offset"])
+    w.struct("SparseGrainLBAHeaderOnDisk", cv.SparseGrainLBAHeaderOnDisk, ["lba", "cmp_size"])
+    for cname in ("SPARSEFLAG_COMPRESSED", "SPARSEFLAG_EMBEDDED_LBA", "SESPARSE_CONST_HEADER_MAGIC", "SESPARSE_GRAIN_TYPE_MASK",
+                  "SESPARSE_GRAIN_TYPE_UNALLOCATED", "SESPARSE_GRAIN_TYPE_FALLTHROUGH", "SESPARSE_GRAIN_TYPE_ZERO",
+                  "SESPARSE_GRAIN_TYPE_ALLOCATED"):
+        w.nat(cname, getattr(cv, cname))
+    w.nat("SECTOR_SIZE", get(m_vmdk, "SECTOR_SIZE"))
+    w.bytes("COWD_MAGIC", get(m_vmdk, "COWD_MAGIC"))
+    w.bytes("VMDK_MAGIC", get(m_vmdk, "VMDK_MAGIC"))
+    w.bytes("SESPARSE_MAGIC", get(m_vmdk, "SESPARSE_MAGIC"))
+    lits = [v for v in func_literals(m_vmdkpy, "SparseDisk._lookup_grain_table") if isinstance(v, int)]
+    w.natlist("lookup_grain_table_literals", lits)
+    lits = [v for v in func_literals(m_vmdkpy, "SparseDisk._lookup_grain") if isinstance(v, int)]
+    w.natlist("lookup_grain_literals", lits)
+    lits = [v for v in func_literals(m_vmdkpy, "SparseDisk.__init__") if isinstance(v, int)]
+    w.natlist("init_literals", lits)
+    lits = [v for v in func_literals(m_vmdkpy, "SparseDisk._read_compressed_grain") if isinstance(v, int)]
+    w.natlist("compressed_grain_literals", lits)
+    w.end("vmdk")
+
     extra = HERE / "extract_more.py"
     if extra.exists():
         ns = {}
